@@ -12,6 +12,7 @@ import MosnVerif.Lemmas.H2ReadLoop
 import MosnVerif.Model.DubboMeta
 import MosnVerif.Lemmas.H1Serve
 import MosnVerif.Lemmas.H2ClientSettings
+import MosnVerif.Lemmas.NeedMoreLive
 /-!
 # C08 — malformed input is contained (property theorems only)
 
@@ -249,7 +250,9 @@ example : (chkBolt false (boltReq.take 30)).out = .needMore := by decide
 example : (chkBolt false (boltReq.set 17 11 ++ [0])).out = .error 36 := by decide
 example : (chkBolt false (boltReq.set 1 9)).out = .error 0 := by decide
 example : (chkThrift (fun _ => true) [0,0,0,2,0xda,0xbc]).out = .error 0 := by decide
-example : (chkTars (fun _ => true) [0,0,0,3,1,2,3]).out = .needMore := by decide
+-- [c08l9] an announced package length below the prefix itself (PACKAGE_ERROR) is a decode error since the tars fix
+example : (chkTars (fun _ => true) [0,0,0,3,1,2,3]).out = .error 0 := by decide
+example : (chkTars (fun _ => true) [0,0,0,9,1,2,3]).out = .needMore := by decide
 
 -- HPACK: a 10-byte continuation run overflows, a length beyond the received bytes asks for more (DecodeFull: error)
 example : MosnVerif.Model.FrameHpack.readVarInt 7 [0x7f, 0x83, 0x01] = .ok 258 [] := by decide
@@ -680,5 +683,52 @@ example : dataFrames 20000 30001 65535 30000 = some [16384, 3616, 10000] := by d
 example : processSettings C08H2Settings.clientValidatesFirst C08H2Settings.clientApplies init [(5, 0)] = .error 1 := by rfl
 example : headerFrames 0 40 5 = none := by decide
 end c08l9settings
+
+/-! ## [c08l9] "need more data" is honest: no connection waits for ever on bytes that can never become a frame -/
+section c08l9needmore
+open MosnVerif.Model.FrameSteps MosnVerif.Model.NeedMoreLive MosnVerif.Lemmas.NeedMoreLive MosnVerif.Gen.FrameConsts
+
+/-- **needmore_is_live_partial**: for dubbo, dubbothrift and tars (either payload oracle) and EVERY byte string the
+decoder answers "need more data" on, there is a continuation on which it answers a frame or an error: the connection is
+never stuck whatever the peer sends next.  (tars: since the fix that maps TarsGo's PACKAGE_ERROR to a decode error —
+regenerated flag `tars_packageErrorFails`; with the flag false the statement is false, see the witness below.)
+Full statement: the same for bolt and boltv2 (their selection on the first bytes is not done here). -/
+theorem needmore_is_live_partial (proto : String) (oracle : Bytes → Bool) (step : Bytes → Step Bytes)
+    (hp : proto = "dubbo" ∨ proto = "thrift" ∨ proto = "tars") (hs : frameStepOf proto oracle = some step)
+    (b : Bytes) (h : step b = .needMore) : ∃ e, step (b ++ e) ≠ .needMore := by
+  rcases hp with rfl | rfl | rfl <;> simp only [frameStepOf, Option.some.injEq] at hs <;> subst hs
+  · exact envelope_live _ _ dubboHdr_live b h
+  · exact envelope_live _ _ thriftHdr_live b h
+  · exact envelope_live _ _ tarsHdr_live b h
+
+/-- the checked tars decoder (the one the `dec` / `disp` cases are compared with) never answers need-more on a buffer
+the declarative reference calls hopeless (announced package length < 4 or > 10 MiB): the predicate added to kinds
+`dec` and `disp` holds of the model -/
+theorem tars_needmore_never_hopeless (oracle : Bytes → Bool) (b : Bytes)
+    (h : (chkTars oracle b).out.toStep b = .needMore) : hopeless "tars" b = false := by
+  rw [MosnVerif.Model.FrameChk.chkTars_refines] at h
+  apply tarsHdr_needMore_not_hopeless
+  unfold frameStep_tars envelope at h
+  split at h
+  · assumption
+  · cases h
+  · split at h <;> cases h
+
+/-- witness of the repaired defect: a decoder that maps PACKAGE_ERROR to "need more data" (the code before the fix)
+waits for ever on the prefix 00 00 00 00 — whatever follows -/
+theorem tars_package_error_as_needmore_is_stuck (e : Bytes) :
+    (fun (b : Bytes) => if b.length < 4 then Hdr.needMore else
+      if be b 0 4 < 4 ∨ be b 0 4 > 10485760 then Hdr.needMore else
+      if b.length < be b 0 4 then Hdr.needMore else Hdr.len (be b 0 4)) ([0, 0, 0, 0] ++ e) = .needMore := by
+  have h : be ([0, 0, 0, 0] ++ e) 0 4 = 0 := by
+    rw [MosnVerif.Model.FrameSteps.be_append [0, 0, 0, 0] e 0 4 (by simp)]; decide
+  simp only [h]; simp
+
+-- non-vacuity: buffers tars answers need-more on (short prefix; 6 announced, 5 buffered) and their completions
+example : frameStep_tars (fun _ => true) [0, 0] = .needMore ∧ frameStep_tars (fun _ => true) [0, 0, 0, 6, 16] = .needMore ∧
+    frameStep_tars (fun _ => true) ([0, 0, 0, 6, 16] ++ [1]) = .frame [0, 0, 0, 6, 16, 1] 6 := by decide
+example : frameStep_tars (fun _ => true) [0, 0, 0, 3] = .error ∧ frameStep_tars (fun _ => true) [0xff, 0xff, 0xff, 0xff, 1] = .error ∧
+    hopeless "tars" [0, 0, 0, 3] = true ∧ hopeless "tars" [0, 0, 0, 4] = false ∧ hopeless "tars" [0, 0xa0, 0, 1] = true := by decide
+end c08l9needmore
 
 end MosnVerif.Props.C08
